@@ -309,6 +309,21 @@ theorem collator_history_sees_own_keys (f : CollFunctor) (h : FunctorOK f) (reqs
     collateAll f reqs = reqs.map (fun r => ownSettings f r.1 r.2) :=
   collateAll_own reqs f h
 
+/-- **collator_fallback.**  Including the failure path: a language name ICU refuses (≥ ULOC_FULLNAME_CAPACITY
+characters) is compared in code-unit order, every time, without touching the cache; every other language is
+compared by an ICU collator with exactly the key's own settings. -/
+theorem collator_fallback (f : CollFunctor) (h : FunctorOK f) (lang : String) (co : CaseOrder) :
+    (collateF f lang co).2 =
+      (if lang.length ≥ ulocFullnameCapacity then Comparer.codeUnits else Comparer.icu (ownSettings f lang co)) ∧
+    FunctorOK (collateF f lang co).1 ∧
+    (lang.length ≥ ulocFullnameCapacity → (collateF f lang co).1 = f) := by
+  unfold collateF
+  split
+  · exact ⟨rfl, h, fun _ => rfl⟩
+  · rename_i hl
+    obtain ⟨h1, h2, _⟩ := collate_own f h lang co
+    exact ⟨by simp [h1], h2, fun hh => absurd hh hl⟩
+
 /-- the cache holds at most `eCacheMax` collators -/
 theorem collator_cache_bounded (f : CollFunctor) (h : f.cache.length ≤ eCacheMax) (lang : String) (co : CaseOrder) :
     (collate f lang co).1.cache.length ≤ eCacheMax :=
@@ -394,6 +409,26 @@ theorem sorter_history_correct (reqs : List (SortReq α)) (hc : ∀ q ∈ reqs, 
     cases ha : q.abort with
     | some c => simp [sortOnce]
     | none => exact sortOnce_correct q.env (hc q (by simp)) q.keys q.nodes s hs
+
+/-- **nested_sorts_correct.**  A sort started while an outer sorted instruction is still iterating (an inner
+xsl:for-each / xsl:apply-templates with xsl:sort in the body: same execution context, same `NodeSorter`): the outer
+sort had copied its result into the instruction's own node list and left the sorter clean before the first
+iteration began (`sorter_clean_at_exit`), so the outer order is `sortNodes` of the outer request and every inner
+sort — one per iteration, or several — returns `sortNodes` of its own request, whatever the others were.  (The
+model's `sortOnce` returns the list by value, as `sortChildren` returns `&sortedNodeList`, a list owned by the
+instruction's stack frame, not by the sorter.) -/
+theorem nested_sorts_correct (outer : SortReq α) (inners : List (SortReq α))
+    (ho : outer.abort = none) (hi : ∀ q ∈ inners, q.abort = none)
+    (hc : ∀ q ∈ outer :: inners, CollationOK q.env) :
+    sortMany ({} : Sorter α) (outer :: inners) =
+      some (sortNodes outer.env outer.keys outer.nodes) ::
+        inners.map (fun q => some (sortNodes q.env q.keys q.nodes)) := by
+  rw [sorter_history_correct (outer :: inners) hc {} ⟨rfl, rfl, rfl⟩]
+  simp only [List.map_cons, ho]
+  congr 1
+  apply List.map_congr_left
+  intro q hq
+  simp [hi q hq]
 
 /-- **noCacheGuards_counterexample.**  With the two cache guards replaced by `clear()` calls after `stable_sort`,
 a sort that aborts after three comparisons leaves its key values behind, and the next sort of the same sorter
